@@ -8,7 +8,11 @@ SRC=/tmp/mut/$ID/out/$X; WT=/tmp/mut/$ID/repo; DST=/verif/seeded/$ID-$X
 export GOFLAGS=-mod=mod GOPROXY=off; unset GOTOOLCHAIN GOSUMDB
 [ -f $SRC/patch.diff ] || { echo "no patch at $SRC"; exit 2; }
 mkdir -p $DST; cp $SRC/patch.diff $SRC/meta.json $DST/ 2>/dev/null; cp $SRC/demo* $DST/ 2>/dev/null; cp -r $SRC/demo $DST/ 2>/dev/null
-place=$(python3 -c "import json;print(json.load(open('$SRC/meta.json')).get('demo_placement',''))")
+place=$(python3 -c "
+import json,re
+v=json.load(open('$SRC/meta.json')).get('demo_placement','')
+m=re.findall(r'[A-Za-z0-9_./-]+/[A-Za-z0-9_./-]+',v)
+print((m[0] if m else v).rstrip('/.'))")
 demo=$(ls $SRC | grep -E '^demo' | head -1)
 log=$DST/confirm.log; : > $log
 cd $WT && git checkout -q -- . && git clean -fdq
